@@ -2,7 +2,7 @@
 (Model/Lattices/Color488Code.lean) tied to
 panqec/codes/color_2d/_color_488_code.py."""
 CLASS = 'Color488Code'
-LEAN_MODULES = []
+LEAN_MODULES = ['PanqecVerif.Properties.C01Color488Code']
 
 
 def streams(ctx):
